@@ -1164,8 +1164,72 @@ def items_before_line(ctx: Ctx, rep: Report, rid: str = "R16.11") -> None:
     rep.floor(3, "containers that export both line and items")
 
 
+def falsy_notes_survive(ctx: Ctx, rep: Report, rid: str = "R16.30") -> None:
+    """The note is the user's object and may be anything, `0`, `[]`, `{}` and `False` included (`Base._init_note` refuses
+    nothing; only `None` means "no note").  Code that carries a note over (copy, rebuild from data, regroup) therefore
+    never decides by the truthiness of the note: `if note := data.get("note"):` or a `{k: v ... if v}` filter over an
+    identity record drops exactly the falsy notes, and the copy differs from its source."""
+    rep.rule(rid)
+    n = 0
+    every = [f for c in ctx.prog.classes.values() for f in c.all_funcs()] + [f for m in ctx.prog.modules.values() for f in m.functions.values()]
+    for f in every:
+        nodes = list(own_nodes(f.node))
+        touches_note = any((isinstance(x, ast.Constant) and x.value == "note") or (isinstance(x, ast.Attribute) and x.attr in ("note", "_note")) or (isinstance(x, ast.keyword) and x.arg == "note") for x in nodes)
+        if not touches_note:
+            continue
+
+        def reads_note(e: ast.AST) -> bool:
+            if isinstance(e, ast.NamedExpr):
+                return reads_note(e.value)
+            if isinstance(e, ast.Call) and isinstance(e.func, ast.Attribute) and e.func.attr in ("get", "pop") and e.args and isinstance(e.args[0], ast.Constant) and e.args[0].value == "note":
+                return True
+            if isinstance(e, ast.Subscript) and isinstance(e.slice, ast.Constant) and e.slice.value == "note":
+                return True
+            if isinstance(e, ast.Attribute) and e.attr in ("note", "_note"):
+                return True
+            return False
+
+        bound = set()
+        for x in nodes:
+            if isinstance(x, ast.Assign) and len(x.targets) == 1 and isinstance(x.targets[0], ast.Name) and reads_note(x.value):
+                bound.add(x.targets[0].id)
+            if isinstance(x, ast.NamedExpr) and reads_note(x.value):
+                bound.add(x.target.id)
+
+        def truth_of_note(t: ast.AST) -> bool:
+            if isinstance(t, ast.UnaryOp) and isinstance(t.op, ast.Not):
+                return truth_of_note(t.operand)
+            if isinstance(t, ast.BoolOp):
+                return any(truth_of_note(v) for v in t.values)
+            return reads_note(t) or (isinstance(t, ast.Name) and t.id in bound)
+
+        for x in nodes:
+            if isinstance(x, (ast.If, ast.IfExp)) and truth_of_note(x.test):
+                body = x.body if isinstance(x, ast.If) else [x.body, x.orelse]
+                carries = any((isinstance(y, ast.Attribute) and y.attr in ("note", "_note") and isinstance(y.ctx, ast.Store)) or (isinstance(y, ast.keyword) and y.arg == "note") or (isinstance(y, ast.Subscript) and isinstance(y.ctx, ast.Store) and isinstance(y.slice, ast.Constant) and y.slice.value == "note") for b in (body if isinstance(body, list) else [body]) for y in ast.walk(b))
+                if isinstance(x, ast.IfExp):
+                    par = getattr(x, "_parent", None)
+                    carries = carries or (isinstance(par, ast.keyword) and par.arg == "note") or (isinstance(par, ast.Assign) and any(isinstance(t, ast.Attribute) and t.attr in ("note", "_note") for t in par.targets))
+                if carries:
+                    n += 1
+                    rep.instance()
+                    rep.violation(f.qualname, snippet(x.test, 60), "a note is carried over only when it is truthy: the user's note `0`, `[]`, `{}` or `False` is dropped by the copy / rebuild / regroup, which then differs from its source in data() and no longer holds the user's object", where(f, x), inp="ace.srcaddr.note = 0; ace.copy().data() != ace.data()")
+            if isinstance(x, ast.DictComp) and len(x.generators) == 1:
+                g = x.generators[0]
+                if isinstance(g.target, ast.Tuple) and len(g.target.elts) == 2 and isinstance(g.target.elts[1], ast.Name):
+                    v = g.target.elts[1].id
+                    if any((isinstance(c, ast.Name) and c.id == v) for c in g.ifs):
+                        n += 1
+                        rep.instance()
+                        rep.violation(f.qualname, snippet(x, 70), "a record that holds a note (this function reads or passes one) is filtered by the truthiness of its values: a falsy user note (`0`, `[]`, `{}`) is dropped and the rebuilt object comes back with the default note", where(f, x), inp="acl.items[0].note = 0; acl.port_nr = True; acl.items[0].note == ''")
+    rep.instance()
+    rep.ok("package", f"no note is carried over under a truthiness test ({n} offending constructs)", where="cisco_acl/")
+
+
+
 def run(ctx: Ctx, rep: Report, tier: str) -> None:
     items_before_line(ctx, rep)
+    falsy_notes_survive(ctx, rep)
     empty_group_dispatch(ctx, rep)
     nested_data_plumbing(ctx, rep)
     from .c15 import adoption_rule
@@ -1234,5 +1298,5 @@ def run(ctx: Ctx, rep: Report, tier: str) -> None:
 
 
 # what the later rounds (seeding rounds 2-5, refactor twins, defect hunt) added to what the check decides
-LATER_ROUNDS = "rebuilt blocks keep uuid, note, number and receive the ACL's version, block identity is filed under a unique key, every exported class with copy() has an equality, adopted entries get the same settings from both rule-list builders, the port split keeps block objects, memos are reset by every writer, members handed over as dictionaries are stamped like ready-made members"
+LATER_ROUNDS = "rebuilt blocks keep uuid, note, number and receive the ACL's version, block identity is filed under a unique key, every exported class with copy() has an equality, adopted entries get the same settings from both rule-list builders, the port split keeps block objects, memos are reset by every writer, members handed over as dictionaries are stamped like ready-made members, notes are never carried over by truthiness"
 EXPLANATION = EXPLANATION.replace(" Does not decide", " Later rounds added: " + LATER_ROUNDS + ". Does not decide", 1) if " Does not decide" in EXPLANATION else EXPLANATION + " Later rounds added: " + LATER_ROUNDS + "."
